@@ -394,7 +394,7 @@ def decode_req(line):
     return line
 
 
-def eval_stream(c, gen_sub, independent=True, budget_ms=3000, gen_extra=(), judge=None, group_start=None, corpus=None, ans_taint=False):
+def eval_stream(c, gen_sub, independent=True, budget_ms=3000, gen_extra=(), judge=None, group_start=None, corpus=None, ans_taint=False, retry_pred=None):
     """dump registry, generate requests, run implementation and model, compare.
     expect.txt (optional, aligned with req.txt) is the model-independent property oracle:
     `err` means any error class; `-` means no expectation; anything else must match exactly.
@@ -430,6 +430,35 @@ def eval_stream(c, gen_sub, independent=True, budget_ms=3000, gen_extra=(), judg
         for k, i in enumerate(slow):
             if k < len(RI) and RI[k]:
                 I[i] = RI[k]
+    if slow and not independent and group_start:
+        # sessions: re-run every session that contains a time-out that would count (retry_pred on the
+        # line's aux record; all of them by default) alone, one worker, generous budget
+        starts = [i for i, l in enumerate(R) if l.startswith(group_start)] + [len(R)]
+        done = set()
+        auxl = rd("aux.txt") if os.path.exists(os.path.join(c.work, "aux.txt")) else []
+        def counts(i):
+            if retry_pred is None:
+                return True
+            try:
+                return bool(retry_pred(json.loads(auxl[i])))
+            except (ValueError, IndexError):
+                return True
+        for i in [x for x in slow if counts(x)][:40]:
+            a = max(x for x in starts if x <= i) if any(x <= i for x in starts) else 0
+            b = min(x for x in starts if x > i)
+            if a in done:
+                continue
+            done.add(a)
+            retry = os.path.join(c.work, "retry")
+            os.makedirs(retry, exist_ok=True)
+            lines = [l for l in R[a:b] if l]
+            open(os.path.join(retry, "req.txt"), "w").write("\n".join(lines) + "\n")
+            sh([RKH, "eval-run", "--out", retry, "--budget-ms=60000", "--jobs=1"], timeout=7200)
+            RI = [l for l in open(os.path.join(retry, "impl.txt")).read().split("\n")]
+            if len(RI) >= len(lines):
+                for k in range(len(lines)):
+                    I[a + k] = RI[k]
+        c.coverage["sessions_rerun_alone"] = len(done)
     E = rd("expect.txt") if os.path.exists(os.path.join(c.work, "expect.txt")) and gen_sub == "gen-c01" else None
     AUX = rd("aux.txt") if os.path.exists(os.path.join(c.work, "aux.txt")) and gen_sub != "gen-c01" else None
     n = len(R) - 1 if R and R[-1] == "" else len(R)
